@@ -183,7 +183,7 @@ def run(ctx):
         with open(path, "rb") as f:
             return hashlib.sha256(("%d:%s" % (len(path), path)).encode() + f.read()).hexdigest()
     for it in range(ctx.n(60, 600)):
-        names = ["s%d.pyx" % it] + ["d%d_%d%s" % (it, j, rng.choice([".pxd", ".pxi", ".h", ".c", ".cpp", ".pyx"])) for j in range(rng.randrange(0, 7))]
+        names = ["s%d.pyx" % it] + ["d%d_%d%s" % (it, j, rng.choice([".pxd", ".pxi", ".h", ".c", ".cpp", ".pyx", ".inc", ".txt", ".PXI", ".hpp", ".py", ""])) for j in range(rng.randrange(0, 7))]
         for n in names:
             with open(os.path.join(d, n), "wb") as f:
                 f.write(bytes(rng.randrange(256) for _ in range(rng.randrange(0, 40))))
@@ -216,15 +216,16 @@ def run(ctx):
                 ctx.violation("dependency-change-same-key", "appending a byte to dependency %s leaves the fingerprint unchanged" % os.path.basename(x), {"names": names})
     ctx.sample({"layout_example_key": real, "flags": fl[1]})
     # ---------------- (d) cythonize cache histories vs uncached compilation
-    PYX = "cimport dep\ninclude 'inc.pxi'\ndef f(list l, int i):\n    return l[i] + dep.K + INC\n"
+    PYX = "cimport dep\ninclude 'inc.pxi'\ninclude 'consts.inc'\ndef f(list l, int i):\n    return l[i] + dep.K + INC + CONST\n"
     steps = [
-        {"write": {"m.pyx": PYX, "dep.pxd": "cdef enum:\n    K = 1\n", "inc.pxi": "INC = 10\n"}, "kwargs": {"language_level": 3}, "what": "initial"},
+        {"write": {"m.pyx": PYX, "dep.pxd": "cdef enum:\n    K = 1\n", "inc.pxi": "INC = 10\n", "consts.inc": "CONST = 100\n"}, "kwargs": {"language_level": 3}, "what": "initial"},
         {"kwargs": {"language_level": 3}, "what": "unchanged (hit expected)"},
         {"kwargs": {"language_level": 3, "compiler_directives": {"boundscheck": False}}, "what": "compiler_directives boundscheck=False"},
         {"kwargs": {"language_level": 3, "compiler_directives": {"boundscheck": False, "wraparound": False}}, "what": "compiler_directives wraparound=False"},
         {"kwargs": {"language_level": 3}, "what": "directives back to default"},
         {"write": {"dep.pxd": "cdef enum:\n    K = 2\n"}, "kwargs": {"language_level": 3}, "what": "cimported pxd changed"},
         {"write": {"inc.pxi": "INC = 11\n"}, "kwargs": {"language_level": 3}, "what": "included file changed"},
+        {"write": {"consts.inc": "CONST = 101\n"}, "kwargs": {"language_level": 3}, "what": "included file with an unusual extension changed"},
         {"kwargs": {"language_level": 2}, "what": "language_level 2"},
         {"write": {"m.pyx": PYX + "\n# c\ndef g(): return 1\n"}, "kwargs": {"language_level": 3}, "what": "source changed"},
         {"kwargs": {"language_level": 3, "language": "c++"}, "what": "language c++"},
